@@ -152,11 +152,15 @@ CLAIMED = {
     'C03': ('Lean 4 theorems: each intercepted output call adds exactly one entry (alias, next ordinal) -> sent arguments in '
             'recording and in replay, ordinals start at 1, extraction picks exactly the output entries, the text of output keys '
             'is injective in (alias, ordinal) for all aliases and ordinals (List Char proof via the last #), whole-run equality '
-            'from the C01 induction; tied to /repo by program pairs (P, edit of P) whose expected output maps are computed from '
+            'from the C01 induction; the outputs of a run are the recorder numbering of its sequence of sends (planOutputs_eq_numberK), '
+            'under key (alias, n) lies the n-th send on that alias (induction over the sends, any starting counters), hence two runs '
+            'differ under a key iff it is (alias, n) and their n-th sends on that alias differ, and a single changed value shows '
+            'under exactly one key; tied to /repo by program pairs (P, edit of P) whose expected output maps are computed from '
             'the programs alone',
             'Kernel-checked entry-level and whole-run statements for all programs; key-text injectivity for all aliases and '
-            'all ordinals. The "difference at exactly the affected entries" sentence is decided by the oracle from the '
-            'per-entry theorems plus key injectivity (no separate theorem).',
+            'all ordinals. The "difference at exactly the affected entries and nowhere else" sentence is a theorem for every pair '
+            'of programs (C03_difference_exact, C03_entry_is_nth_send, C03_single_changed_value), stated over the planned '
+            'outputs of a run, which C03_recorded_is_sent ties to the recording the run leaves.',
             'Trusted: Lean kernel; recorder model tied by differential execution; known finding K4 (arguments stored by '
             'reference) excluded: values are immutable in the model; known finding K10 (a replay started inside a recorded operation restarts the output numbering) is outside the model: no replay is started from inside a recorded operation.', 'DESIGN.md 6/C03'),
     'C17': ('Lean 4 theorems: the finally-block of the recording scope computes exactly keep = forced or rate >= 1 or draw <= '
